@@ -20,6 +20,7 @@ type Options struct {
 // Exec generates the verification condition of one function under contract.
 type Exec struct {
 	assertHit map[*CallAssert]bool
+	fwd       map[string]fwdEntry // store-to-load forwarding per heap version (see store)
 	prog         *Program
 	vc           *VC
 	opts         Options
@@ -511,6 +512,12 @@ func (ex *Exec) enterLoop(fr *Frame, li *loopInfo, states []*State, conds []Term
 			if sc, isSc := v.(Scalar); isSc && sc.T.Sort == SIface {
 				v = Scalar{App(SIface, "mk-iface", ex.vc.typeID(dt), IfVal(sc.T)), sc.Ty}
 			}
+		} else if dt, ok := narrowed["?"+a.Comment]; ok {
+			// x == nil || typeis(x, T): nil or that one type
+			if sc, isSc := v.(Scalar); isSc && sc.T.Sort == SIface {
+				isNil := ex.vc.fresh("isnil", SBool)
+				v = Scalar{App(SIface, "mk-iface", App(SInt, "ite", isNil, IntLit(0), ex.vc.typeID(dt)), App(SInt, "ite", isNil, IntLit(0), IfVal(sc.T))), sc.Ty}
+			}
 		}
 		st.locals[a] = v
 	}
@@ -648,6 +655,24 @@ func (ex *Exec) invariantDynTypes(fr *Frame, ls *LoopSpec) map[string]types.Type
 				walk(x.X)
 				walk(x.Y)
 			}
+			if x.Op == "||" {
+				// x == nil || (typeis(x, T) && ...)
+				if eq, ok := x.X.(EBinary); ok && eq.Op == "==" {
+					if v, ok := eq.X.(EIdent); ok {
+						if _, ok := eq.Y.(ENil); ok {
+							inner := map[string]types.Type{}
+							saved := out
+							out = inner
+							walk(x.Y)
+							out = saved
+							if t, ok := inner[v.Name]; ok {
+								out["?"+v.Name] = t
+							}
+						}
+					}
+				}
+			}
+
 		case ECall:
 			if id, ok := x.Fun.(EIdent); ok && id.Name == "typeis" && len(x.Args) == 2 {
 				if v, ok := x.Args[0].(EIdent); ok {
